@@ -495,6 +495,58 @@ var rebuildExceptions = map[string]string{
 func checkRebuilds(c *Ctx, p *packages.Package) {
 	info := p.TypesInfo
 	short := strings.TrimPrefix(p.PkgPath, mainMod+"/")
+	// helpers that re-create a *types.Var with NewVar/NewParam (cannot carry the embedded flag)
+	flatteners := map[*types.Func]bool{}
+	for _, fd := range allFuncs(p) {
+		var vparams []types.Object
+		for _, f := range fd.Type.Params.List {
+			for _, nm := range f.Names {
+				if o := info.Defs[nm]; o != nil && strings.HasSuffix(o.Type().String(), "go/types.Var") {
+					vparams = append(vparams, o)
+				}
+			}
+		}
+		if len(vparams) == 0 {
+			continue
+		}
+		for _, call := range callsIn(fd.Body) {
+			f := calleeOf(info, call)
+			if f == nil || f.Pkg() == nil || f.Pkg().Path() != "go/types" || (f.Name() != "NewVar" && f.Name() != "NewParam") || len(call.Args) != 4 {
+				continue
+			}
+			if nc, ok := ast.Unparen(call.Args[2]).(*ast.CallExpr); ok {
+				if a, recv := goTypesAccessor(info, nc); a == "Var.Name" {
+					if id, ok := ast.Unparen(recv).(*ast.Ident); ok {
+						for _, vp := range vparams {
+							if info.Uses[id] == vp {
+								if o, ok := info.Defs[fd.Name].(*types.Func); ok {
+									flatteners[o] = true
+								}
+							}
+						}
+					}
+				}
+			}
+		}
+	}
+	for _, fd := range allFuncs(p) {
+		v := newFnView(p, fd)
+		k := 0
+		for _, call := range callsIn(fd.Body) {
+			f := calleeOf(info, call)
+			if f == nil || !flatteners[f] {
+				continue
+			}
+			for _, a := range call.Args {
+				if t := info.TypeOf(a); t == nil || !strings.HasSuffix(t.String(), "go/types.Var") {
+					continue
+				}
+				k++
+				c.Check(!fieldOfStruct(v, a), "R07.2", fmt.Sprintf("%s.%s passes %s to %s#%d keeps embedding", short, declName(fd), exprStr(a), f.Name(), k), call.Pos(), "not a struct field",
+					"a struct field is re-created through "+f.Name()+", which builds it with NewVar/NewParam and so drops the embedded flag: promoted methods and fields disappear from the rebuilt type")
+			}
+		}
+	}
 	for _, fd := range allFuncs(p) {
 		v := newFnView(p, fd)
 		count := map[string]int{}
